@@ -30,7 +30,7 @@ def main():
                 expect = m.get("expect", "caught")
                 if expect == "undecided":
                     expect = "caught"  # through the whole pipeline the bounded stand-in must decide
-                flag = "OK " if got == expect else "!! "
+                flag = "OK " if got in expect.split("|") else "!! "
                 print(f"{flag}{m['name']}: expect={expect} got={got} rc={r.returncode} {viol[:1]} {und[:1]}")
                 shutil.rmtree(d)
                 continue
@@ -43,7 +43,7 @@ def main():
             if "Traceback" in r.stdout + r.stderr or ": crash" in r.stdout or not r.stdout.strip():
                 got = "CRASH"
                 und = [l for l in (r.stdout + r.stderr).splitlines() if "Error" in l][-1:]
-            flag = "OK " if got == expect else "!! "
+            flag = "OK " if got in expect.split("|") else "!! "     # ("caught|undecided": refutable only on a quiet machine)
             print(f"{flag}{m['name']}: expect={expect} got={got} {bad[:2]} {und[:1]}")
             shutil.rmtree(d)
     finally:
